@@ -697,6 +697,34 @@ def alias_mutations(module, project_classes, table, memo_attrs, mutating_functio
     return res
 
 
+def _import_time_only(fn, module, proj):
+    """Is the (outermost enclosing) function of a store used exclusively in decorator position on module-level definitions?"""
+    top = fn
+    p = _enclosing(top, (ast.FunctionDef, ast.AsyncFunctionDef))
+    while p is not None:
+        top = p
+        p = _enclosing(top, (ast.FunctionDef, ast.AsyncFunctionDef))
+    if getattr(top, "_parent", None) is not module.tree:
+        return False
+    name = top.name
+    uses = deco_uses = 0
+    for m in proj.modules.values():
+        deco_nodes = set()
+        for st in m.tree.body:
+            if isinstance(st, (ast.FunctionDef, ast.AsyncFunctionDef, ast.ClassDef)):
+                for d in st.decorator_list:
+                    for n in ast.walk(d):
+                        deco_nodes.add(id(n))
+        for n in ast.walk(m.tree):
+            if (isinstance(n, ast.Name) and n.id == name and isinstance(n.ctx, ast.Load)) or (isinstance(n, ast.Attribute) and n.attr == name):
+                if m is not module and not any(isinstance(x, ast.ImportFrom) and any(a.name == name for a in x.names) for x in ast.walk(m.tree)) and isinstance(n, ast.Name):
+                    continue  # another module's own name
+                uses += 1
+                if id(n) in deco_nodes:
+                    deco_uses += 1
+    return uses > 0 and uses == deco_uses
+
+
 def analyse(proj, module_filter=None):
     """-> (instances, n_containers): instance = dict(site, construct, status, detail)"""
     project_classes = {}
@@ -733,11 +761,36 @@ def analyse(proj, module_filter=None):
             res.append(dict(site=site, construct=construct, status="violated" if am["definite"] else "undecided", key=am["label"] + "|alias", detail=detail))
         consts = set()
         for s in sts:
+            if s.scope == "process" and _import_time_only(s.fn, m, proj):
+                res.append(dict(site=f"{m.relpath}:{s.node.lineno}", construct=f"{s.container} <- {m.name}::{s.fn.name}", status="discharged", key=s.container,
+                                detail=f"`{ast.unparse(s.node)[:80]}`: the storing function is only ever applied as a decorator of module-level definitions - the container is "
+                                       "filled once, when the module is imported, with values that do not depend on any run"))
+                continue
             fd = FuncDeps(s.fn, consts, table)
             fd.for_key = True
             kD, kM = fd.roots(s.key) if s.key is not None else (set(), set())
             fd.for_key = False
             vD, vM = fd.roots(s.value) if s.value is not None else (set(), set())
+            if s.scope == "process" and s.value is not None:
+                # a process-wide container filled with the result of a method of `self`: what that method reads from the instance is an input of
+                # the stored value (the instance belongs to one run, the container to the process)
+                cls_n = _enclosing(s.fn, (ast.ClassDef,))
+                if cls_n is not None:
+                    methods = {f_.name: f_ for f_ in cls_n.body if isinstance(f_, (ast.FunctionDef, ast.AsyncFunctionDef))}
+                    # (names bound by assignment earlier in the function are followed one step)
+                    exprs = [s.value]
+                    if isinstance(s.value, ast.Name):
+                        exprs += [a_.value for a_ in ast.walk(s.fn) if isinstance(a_, ast.Assign) and any(isinstance(t_, ast.Name) and t_.id == s.value.id for t_ in a_.targets)]
+                    for ex in exprs:
+                        for c_ in ast.walk(ex):
+                            if isinstance(c_, ast.Call) and isinstance(c_.func, ast.Attribute) and isinstance(c_.func.value, ast.Name) and c_.func.value.id == "self" \
+                                    and c_.func.attr in methods:
+                                for n_ in ast.walk(methods[c_.func.attr]):
+                                    if isinstance(n_, ast.Attribute) and isinstance(n_.value, ast.Name) and n_.value.id == "self" and isinstance(n_.ctx, ast.Load) \
+                                            and n_.attr not in methods and not (isinstance(getattr(n_, "_parent", None), ast.Attribute) and False):
+                                        if n_.attr == ast.unparse(s.node).split("[")[0].split(".")[-1].strip():
+                                            continue  # the container itself
+                                        vD.add(f"self.{n_.attr} (read by self.{c_.func.attr}())")
             # a private helper called only from inside the class: its parameters are what the callers pass (one level)
             cls_node_ = _enclosing(s.fn, (ast.ClassDef,))
             if s.fn.name.startswith("_") and not s.fn.name.startswith("__") and cls_node_ is not None and _internal_callers(s.fn, cls_node_):
